@@ -60,6 +60,8 @@ mod crypto;
 mod request_call;
 mod session;
 mod tests;
+#[cfg(feature = "verif-hooks")]
+pub mod verif;
 
 pub use crate::node_info::{NodeAddress, NodeContact};
 
@@ -335,6 +337,8 @@ impl Handler {
         let mut banned_nodes_check = tokio::time::interval(Duration::from_secs(BANNED_NODES_CHECK));
 
         loop {
+            #[cfg(feature = "verif-hooks")]
+            self.verif_publish();
             tokio::select! {
                 Some(handler_request) = self.service_recv.recv() => {
                     match handler_request {
